@@ -1,7 +1,29 @@
 /-
-  Sipsp.Proofs.UriListsL — the stand-alone list parsers ParseTokenParam, ParseAllURIParams, ParseAllURIHdrs:
-  L1 (no premature verdict) for the two list wrappers, L2 (resumption) for ParseTokenParam and for the two
-  wrappers, capacity independence for the two wrappers.
+  Sipsp.Proofs.UriListsL — the stand-alone list parsers ParseTokenParam, ParseAllURIParams, ParseAllURIHdrs
+  (properties C02 / C03 / C13 for them).  Everything is for option sets without `POptInputEndF`.
+
+  Proved (final theorems):
+  * L1 (C03)  `parseAllURIParams_stable`, `parseAllURIHdrs_stable` (+ loop versions `uriParamsLoop_stable`,
+              `uriHdrsLoop_stable`): a definitive result (offset, number of values, verdict, list object) does not
+              change when bytes are appended.
+  * L2 (C02)  `parseTokenParam_resume`: for EVERY object and option set (including `POptTokSpTermF`, whose
+              previous-byte test depends on the offset the call was started with) the resumed call returns exactly
+              what the call from the original offset returns.  `parseAllURIParams_resume`,
+              `parseAllURIHdrs_resume` (+ `uriParamsLoop_resume`, `uriHdrsLoop_resume`): same offset, verdict and
+              list object, the per-call value counters add up, legitimacy is re-established at the suspension.
+              Schedule forms: `parseTokenParam_schedule`, `parseAllURIParams_schedule`, `parseAllURIHdrs_schedule`.
+  * C13       `parseAllURIParams_rel`, `parseAllURIHdrs_rel` (+ `uriParamsLoop_rel`, `uriHdrsLoop_rel`): two runs
+              with arrays of different capacity return the same offset, number of values and verdict, and related
+              objects (`PlRel` / `HlRel`: same `n`, type flags, panic flag, current element; stored elements agree
+              wherever both arrays have room).  `PlRel_new`, `PlRel_reset`, `HlRel_new`, `HlRel_reset`.
+  * every call (any verdict) returns a legitimate list and an offset in [offs, len]: `parseAllURIParams_post`,
+              `parseAllURIHdrs_post`; for ParseTokenParam `parseTokenParam_post`, `parseTokenParam_range`.
+  * legitimacy: `plOK` (URI parameters: clean unused slots + the current element's name field has a 16-bit offset and
+              ends inside the buffer) / `hlClean` (URI headers); `plOK_new`, `plOK_reset`, `hlClean_new`,
+              `hlClean_reset` for new / reset lists of any capacity.
+
+  NOT proved here: anything with `POptInputEndF`; lists whose unused slots hold garbage (then the model's progress
+  guard can fail, see `pl_guard`).
 -/
 import Sipsp.Proofs.TokParamL1
 import Sipsp.Proofs.ProgressNA
@@ -719,7 +741,7 @@ theorem uriParamsLoop_eq (b : Buf) (offs : Nat) (l : URIParamsLst) (flags vNo : 
 section
 variable {b : Buf} {offs : Nat} {l : URIParamsLst} {flags vNo next : Nat} {e : Err} {tp : PTokParam}
 
-theorem uriParamsLoop_more (hp : parseTokenParam b offs l.cur.param flags = (next, .moreBytes, tp)) :
+theorem uriParamsLoop_eq_more (hp : parseTokenParam b offs l.cur.param flags = (next, .moreBytes, tp)) :
     uriParamsLoop b offs l flags vNo = (next, vNo, .moreBytes, l.setCur { l.cur with param := tp }) := by
   rw [uriParamsLoop_eq, hp]; rfl
 
@@ -735,7 +757,7 @@ theorem uriParamsLoop_panic (hp : parseTokenParam b offs l.cur.param flags = (ne
   rw [uriParamsLoop_eq, hp]
   rcases he with rfl | rfl | rfl <;> simp only [hg] <;> rfl
 
-theorem uriParamsLoop_last {nm : Buf} (hp : parseTokenParam b offs l.cur.param flags = (next, e, tp))
+theorem uriParamsLoop_eq_last {nm : Buf} (hp : parseTokenParam b offs l.cur.param flags = (next, e, tp))
     (he : e = .ok ∨ e = .eoh) (hg : tp.name.get? b = some nm) :
     uriParamsLoop b offs l flags vNo = (next, vNo + 1, e, l.next tp (uriParamResolve nm)) := by
   rw [uriParamsLoop_eq, hp]
@@ -896,7 +918,7 @@ theorem uriParamsLoop_stable (b s : Buf) (flags : Nat) (hf : hasFlag flags POptI
     have hpost := parseTokenParam_post b offs l.cur.param flags hf ho hok.1 hp
     by_cases hm : e1 = .moreBytes
     · subst hm
-      rw [uriParamsLoop_more hp] at hr; cases hr; exact absurd rfl he
+      rw [uriParamsLoop_eq_more hp] at hr; cases hr; exact absurd rfl he
     · have hpB := parseTokenParam_stable b s offs l.cur.param flags hf hp hm
       have hgB : tp.name.get? (b ++ s) = tp.name.get? b := PField.get?_app _ b s hpost.2.2.2
       by_cases hc : e1 = .ok ∨ e1 = .moreValues ∨ e1 = .eoh
@@ -906,15 +928,15 @@ theorem uriParamsLoop_stable (b s : Buf) (flags : Nat) (hf : hasFlag flags POptI
           rw [uriParamsLoop_panic hpB hc (hgB.trans hg)]; exact hr
         | some nm =>
           rcases hc with rfl | rfl | rfl
-          · rw [uriParamsLoop_last hp (Or.inl rfl) hg] at hr
-            rw [uriParamsLoop_last hpB (Or.inl rfl) (hgB.trans hg)]; exact hr
+          · rw [uriParamsLoop_eq_last hp (Or.inl rfl) hg] at hr
+            rw [uriParamsLoop_eq_last hpB (Or.inl rfl) (hgB.trans hg)]; exact hr
           · have hgd := pl_guard hf hok.2 ho hp (uriParamResolve nm)
             rw [uriParamsLoop_mv' hf hok.2 ho hp hg] at hr
             rw [uriParamsLoop_mv' hf hok.2 hoB hpB (hgB.trans hg)]
             have hcn := plClean_next tp (uriParamResolve nm) hok.2
             exact ih next tp nm hp hg hgd ⟨by rw [hcn.2]; exact tpOK_new b, hcn.1⟩ hgd.1 hr
-          · rw [uriParamsLoop_last hp (Or.inr rfl) hg] at hr
-            rw [uriParamsLoop_last hpB (Or.inr rfl) (hgB.trans hg)]; exact hr
+          · rw [uriParamsLoop_eq_last hp (Or.inr rfl) hg] at hr
+            rw [uriParamsLoop_eq_last hpB (Or.inr rfl) (hgB.trans hg)]; exact hr
       · have h1 : e1 ≠ .ok := fun h => hc (Or.inl h)
         have h2 : e1 ≠ .moreValues := fun h => hc (Or.inr (Or.inl h))
         have h3 : e1 ≠ .eoh := fun h => hc (Or.inr (Or.inr h))
@@ -1031,15 +1053,15 @@ theorem uriParamsLoop_reenter (B : Buf) (flags : Nat) (hf : hasFlag flags POptIn
     rw [pSetCur_cur]
   by_cases hm : e2 = .moreBytes
   · subst hm
-    rw [uriParamsLoop_more h1, uriParamsLoop_more h2, pSetCur_setCur, hobj]
+    rw [uriParamsLoop_eq_more h1, uriParamsLoop_eq_more h2, pSetCur_setCur, hobj]
   · by_cases hc : e2 = .ok ∨ e2 = .moreValues ∨ e2 = .eoh
     · cases hg : tp2.name.get? B with
       | none => rw [uriParamsLoop_panic h1 hc hg, uriParamsLoop_panic h2 hc hg, pSetCur_setCur, hobj]
       | some nm =>
         rcases hc with rfl | rfl | rfl
-        · rw [uriParamsLoop_last h1 (Or.inl rfl) hg, uriParamsLoop_last h2 (Or.inl rfl) hg, pNext_setCur]
+        · rw [uriParamsLoop_eq_last h1 (Or.inl rfl) hg, uriParamsLoop_eq_last h2 (Or.inl rfl) hg, pNext_setCur]
         · rw [uriParamsLoop_mv' hf hcl' ho' h1 hg, uriParamsLoop_mv' hf hcl ho h2 hg, pNext_setCur]
-        · rw [uriParamsLoop_last h1 (Or.inr rfl) hg, uriParamsLoop_last h2 (Or.inr rfl) hg, pNext_setCur]
+        · rw [uriParamsLoop_eq_last h1 (Or.inr rfl) hg, uriParamsLoop_eq_last h2 (Or.inr rfl) hg, pNext_setCur]
     · have e1 : e2 ≠ .ok := fun h => hc (Or.inl h)
       have e3 : e2 ≠ .moreValues := fun h => hc (Or.inr (Or.inl h))
       have e4 : e2 ≠ .eoh := fun h => hc (Or.inr (Or.inr h))
@@ -1063,7 +1085,7 @@ theorem uriParamsLoop_resume (b s : Buf) (flags : Nat) (hf : hasFlag flags POptI
     have hpost := parseTokenParam_post b offs l.cur.param flags hf ho hok.1 hp
     by_cases hm : e1 = .moreBytes
     · subst hm
-      rw [uriParamsLoop_more hp] at hr
+      rw [uriParamsLoop_eq_more hp] at hr
       simp only [Prod.mk.injEq, true_and] at hr
       obtain ⟨rfl, rfl, rfl⟩ := hr
       have hres := parseTokenParam_resume b s offs l.cur.param flags hf hp
@@ -1082,7 +1104,7 @@ theorem uriParamsLoop_resume (b s : Buf) (flags : Nat) (hf : hasFlag flags POptI
           exact absurd hr.2.2.1 hm
         | some nm =>
           rcases hc with rfl | rfl | rfl
-          · rw [uriParamsLoop_last hp (Or.inl rfl) hg] at hr; cases hr
+          · rw [uriParamsLoop_eq_last hp (Or.inl rfl) hg] at hr; cases hr
           · have hgd := pl_guard hf hok.2 ho hp (uriParamResolve nm)
             rw [uriParamsLoop_mv' hf hok.2 ho hp hg] at hr
             have hcn := plClean_next tp (uriParamResolve nm) hok.2
@@ -1090,7 +1112,7 @@ theorem uriParamsLoop_resume (b s : Buf) (flags : Nat) (hf : hasFlag flags POptI
             refine ⟨?_, this.2.1, by have := this.2.2.1; omega, this.2.2.2.1, this.2.2.2.2⟩
             rw [uriParamsLoop_mv' hf hok.2 hoB hpB (hgB.trans hg)]
             exact this.1
-          · rw [uriParamsLoop_last hp (Or.inr rfl) hg] at hr; cases hr
+          · rw [uriParamsLoop_eq_last hp (Or.inr rfl) hg] at hr; cases hr
       · have h1 : e1 ≠ .ok := fun h => hc (Or.inl h)
         have h2 : e1 ≠ .moreValues := fun h => hc (Or.inr (Or.inl h))
         have h3 : e1 ≠ .eoh := fun h => hc (Or.inr (Or.inr h))
@@ -1112,13 +1134,13 @@ theorem uriParamsLoop_vNo (b : Buf) (flags offs : Nat) (l : URIParamsLst) (vNo :
       intro k
       rcases hp : parseTokenParam b offs l.cur.param flags with ⟨next, e1, tp⟩
       by_cases hm : e1 = .moreBytes
-      · subst hm; rw [uriParamsLoop_more hp, uriParamsLoop_more hp]
+      · subst hm; rw [uriParamsLoop_eq_more hp, uriParamsLoop_eq_more hp]
       · by_cases hc : e1 = .ok ∨ e1 = .moreValues ∨ e1 = .eoh
         · cases hg : tp.name.get? b with
           | none => rw [uriParamsLoop_panic hp hc hg, uriParamsLoop_panic hp hc hg]
           | some nm =>
             rcases hc with rfl | rfl | rfl
-            · rw [uriParamsLoop_last hp (Or.inl rfl) hg, uriParamsLoop_last hp (Or.inl rfl) hg]
+            · rw [uriParamsLoop_eq_last hp (Or.inl rfl) hg, uriParamsLoop_eq_last hp (Or.inl rfl) hg]
               simp only [Prod.mk.injEq, true_and, and_true]; omega
             · rw [uriParamsLoop_mv hp hg, uriParamsLoop_mv hp hg]
               split
@@ -1127,7 +1149,7 @@ theorem uriParamsLoop_vNo (b : Buf) (flags offs : Nat) (l : URIParamsLst) (vNo :
                 rw [show vNo + k + 1 = vNo + 1 + k by omega]
                 exact this
               · simp only [Prod.mk.injEq, true_and, and_true]; omega
-            · rw [uriParamsLoop_last hp (Or.inr rfl) hg, uriParamsLoop_last hp (Or.inr rfl) hg]
+            · rw [uriParamsLoop_eq_last hp (Or.inr rfl) hg, uriParamsLoop_eq_last hp (Or.inr rfl) hg]
               simp only [Prod.mk.injEq, true_and, and_true]; omega
         · have h1 : e1 ≠ .ok := fun h => hc (Or.inl h)
           have h2 : e1 ≠ .moreValues := fun h => hc (Or.inr (Or.inl h))
@@ -1216,7 +1238,7 @@ theorem uriParamsLoop_rel (b : Buf) (flags offs : Nat) (l1 l2 : URIParamsLst) (v
     have hp2 : parseTokenParam b offs l2.cur.param flags = (next, e1, tp) := by rw [← h.cur]; exact hp
     by_cases hm : e1 = .moreBytes
     · subst hm
-      rw [uriParamsLoop_more hp, uriParamsLoop_more hp2, ← h.cur]
+      rw [uriParamsLoop_eq_more hp, uriParamsLoop_eq_more hp2, ← h.cur]
       exact ⟨rfl, rfl, rfl, h.setCur _⟩
     · by_cases hc : e1 = .ok ∨ e1 = .moreValues ∨ e1 = .eoh
       · cases hg : tp.name.get? b with
@@ -1225,7 +1247,7 @@ theorem uriParamsLoop_rel (b : Buf) (flags offs : Nat) (l1 l2 : URIParamsLst) (v
           exact ⟨rfl, rfl, rfl, (h.setCur _).setPnc true⟩
         | some nm =>
           rcases hc with rfl | rfl | rfl
-          · rw [uriParamsLoop_last hp (Or.inl rfl) hg, uriParamsLoop_last hp2 (Or.inl rfl) hg]
+          · rw [uriParamsLoop_eq_last hp (Or.inl rfl) hg, uriParamsLoop_eq_last hp2 (Or.inl rfl) hg]
             exact ⟨rfl, rfl, rfl, h.next _ _⟩
           · rw [uriParamsLoop_mv hp hg, uriParamsLoop_mv hp2 hg, ← h.cur,
               (plClean_next tp (uriParamResolve nm) h.clean1).2, (plClean_next tp (uriParamResolve nm) h.clean2).2]
@@ -1234,7 +1256,7 @@ theorem uriParamsLoop_rel (b : Buf) (flags offs : Nat) (l1 l2 : URIParamsLst) (v
               rw [← (plClean_next tp (uriParamResolve nm) h.clean1).2] at hgd
               exact ih next tp nm hp hg hgd _ (h.next _ _)
             · exact ⟨rfl, rfl, rfl, h.next _ _⟩
-          · rw [uriParamsLoop_last hp (Or.inr rfl) hg, uriParamsLoop_last hp2 (Or.inr rfl) hg]
+          · rw [uriParamsLoop_eq_last hp (Or.inr rfl) hg, uriParamsLoop_eq_last hp2 (Or.inr rfl) hg]
             exact ⟨rfl, rfl, rfl, h.next _ _⟩
       · have h1 : e1 ≠ .ok := fun h => hc (Or.inl h)
         have h2 : e1 ≠ .moreValues := fun h => hc (Or.inr (Or.inl h))
@@ -1274,5 +1296,666 @@ theorem PlRel_reset {l1 l2 : URIParamsLst} (h1 : plClean l1) (h2 : plClean l2) :
     · rfl
   exact ⟨rfl, rfl, rfl, by rw [hcur l1 h1, hcur l2 h2], (fun k hk => by cases hk), (plOK_reset #[] h1).1.2,
     (plOK_reset #[] h2).1.2⟩
+
+/-! ### the URI-header list object -/
+
+theorem hSetCur_n (l : URIHdrsLst) (p : PTokParam) : (l.setCur p).n = l.n := by
+  unfold URIHdrsLst.setCur; split <;> rfl
+theorem hSetCur_size (l : URIHdrsLst) (p : PTokParam) : (l.setCur p).hdrs.size = l.hdrs.size := by
+  unfold URIHdrsLst.setCur; split
+  · simp
+  · rfl
+theorem hSetCur_get_ne (l : URIHdrsLst) (p : PTokParam) (k : Nat) (hk : l.n ≠ k) :
+    (l.setCur p).hdrs[k]! = l.hdrs[k]! := by
+  unfold URIHdrsLst.setCur; split
+  · simp [Array.getElem!_eq_getD, Array.getD_eq_getD_getElem?, Array.getElem?_setIfInBounds_ne hk]
+  · rfl
+theorem hSetCur_tmp_in (l : URIHdrsLst) (p : PTokParam) (h : l.n < l.hdrs.size) : (l.setCur p).tmp = l.tmp := by
+  unfold URIHdrsLst.setCur; rw [if_pos h]
+
+theorem hSetCur_cur (l : URIHdrsLst) (p : PTokParam) : (l.setCur p).cur = p := by
+  unfold URIHdrsLst.setCur URIHdrsLst.cur
+  split
+  · rename_i h
+    have h' : l.n < (l.hdrs.set! l.n p).size := by simpa using h
+    simp only [h', ↓reduceIte]
+    simp [h]
+  · rfl
+
+theorem hSetCur_get_n (l : URIHdrsLst) (p : PTokParam) (h : l.n < l.hdrs.size) :
+    (l.setCur p).hdrs[l.n]! = p := by
+  have := hSetCur_cur l p
+  unfold URIHdrsLst.cur at this
+  rw [hSetCur_n, hSetCur_size, if_pos h] at this
+  exact this
+
+theorem hSetCur_setCur (l : URIHdrsLst) (p q : PTokParam) : (l.setCur p).setCur q = l.setCur q := by
+  unfold URIHdrsLst.setCur
+  split
+  · rename_i h
+    have h' : l.n < (l.hdrs.set! l.n p).size := by simpa using h
+    simp only [h', ↓reduceIte]
+    simp [Array.setIfInBounds_setIfInBounds]
+  · rfl
+
+/-- the object the loop goes on with after a completed element -/
+def URIHdrsLst.next (l : URIHdrsLst) (tp : PTokParam) : URIHdrsLst :=
+  if l.n < l.hdrs.size then { l.setCur tp with n := (l.setCur tp).n + 1 }
+  else { l.setCur tp with n := (l.setCur tp).n + 1, tmp := {} }
+
+theorem uriHdrsLoop_eq (b : Buf) (offs : Nat) (l : URIHdrsLst) (flags vNo : Nat) :
+    uriHdrsLoop b offs l flags vNo =
+      match parseTokenParam b offs l.cur flags with
+      | (next, e, tp) =>
+        if e == .ok || e == .moreValues || e == .eoh then
+          if e == .moreValues then
+            if next ≤ b.size ∧ (offs < next ∨ (offs = next ∧ l.cur.state = .fNxt ∧ (l.next tp).cur.state ≠ .fNxt)) then
+              uriHdrsLoop b next (l.next tp) flags (vNo + 1)
+            else (next, vNo + 1, .lbug, l.next tp)
+          else (next, vNo + 1, e, l.next tp)
+        else if e == .moreBytes then (next, vNo, e, l.setCur tp)
+        else (next, vNo, e, l.setCur {}) := by
+  rw [uriHdrsLoop]
+  unfold URIHdrsLst.next
+  by_cases h : l.n < l.hdrs.size <;> simp only [h, ↓reduceIte] <;> rfl
+
+section
+variable {b : Buf} {offs : Nat} {l : URIHdrsLst} {flags vNo next : Nat} {e : Err} {tp : PTokParam}
+
+theorem uriHdrsLoop_eq_more (hp : parseTokenParam b offs l.cur flags = (next, .moreBytes, tp)) :
+    uriHdrsLoop b offs l flags vNo = (next, vNo, .moreBytes, l.setCur tp) := by
+  rw [uriHdrsLoop_eq, hp]; rfl
+
+theorem uriHdrsLoop_err (hp : parseTokenParam b offs l.cur flags = (next, e, tp))
+    (h1 : e ≠ .ok) (h2 : e ≠ .moreValues) (h3 : e ≠ .eoh) (h4 : e ≠ .moreBytes) :
+    uriHdrsLoop b offs l flags vNo = (next, vNo, e, l.setCur {}) := by
+  rw [uriHdrsLoop_eq, hp]
+  cases e <;> first | rfl | exact absurd rfl h1 | exact absurd rfl h2 | exact absurd rfl h3 | exact absurd rfl h4
+
+theorem uriHdrsLoop_eq_last (hp : parseTokenParam b offs l.cur flags = (next, e, tp)) (he : e = .ok ∨ e = .eoh) :
+    uriHdrsLoop b offs l flags vNo = (next, vNo + 1, e, l.next tp) := by
+  rw [uriHdrsLoop_eq, hp]
+  rcases he with rfl | rfl <;> rfl
+
+theorem uriHdrsLoop_mv (hp : parseTokenParam b offs l.cur flags = (next, .moreValues, tp)) :
+    uriHdrsLoop b offs l flags vNo =
+      if next ≤ b.size ∧ (offs < next ∨ (offs = next ∧ l.cur.state = .fNxt ∧ (l.next tp).cur.state ≠ .fNxt)) then
+        uriHdrsLoop b next (l.next tp) flags (vNo + 1)
+      else (next, vNo + 1, .lbug, l.next tp) := by
+  rw [uriHdrsLoop_eq, hp]
+  rfl
+
+end
+
+/-- induction along the elements of the list -/
+theorem uriHdrsLoop_induct (b : Buf) (flags : Nat) (motive : Nat → URIHdrsLst → Nat → Prop)
+    (step : ∀ offs l vNo,
+      (∀ next tp, parseTokenParam b offs l.cur flags = (next, .moreValues, tp) →
+        next ≤ b.size ∧ (offs < next ∨ (offs = next ∧ l.cur.state = .fNxt ∧ (l.next tp).cur.state ≠ .fNxt)) →
+        motive next (l.next tp) (vNo + 1)) → motive offs l vNo)
+    (offs : Nat) (l : URIHdrsLst) (vNo : Nat) : motive offs l vNo := by
+  apply uriHdrsLoop.induct b flags motive
+  · intro offs l vNo inArr next e tp hp he l1 l2 l3 hmv hgd ih
+    apply step; intro next' tp' hp' _
+    rw [hp] at hp'; cases hp'
+    have : l.next tp = l3 := by
+      unfold URIHdrsLst.next
+      by_cases h : l.n < l.hdrs.size
+      · simp only [h, ↓reduceIte]; simp only [l3, inArr, h, ↓reduceDIte]; rfl
+      · simp only [h, ↓reduceIte]; simp only [l3, inArr, h, ↓reduceDIte]; rfl
+    rw [this]; exact ih
+  · intro offs l vNo inArr next e tp hp he l1 l2 l3 hmv hgd
+    apply step; intro next' tp' hp' hgd'
+    rw [hp] at hp'; cases hp'
+    exfalso; apply hgd
+    have : l.next tp = l3 := by
+      unfold URIHdrsLst.next
+      by_cases h : l.n < l.hdrs.size
+      · simp only [h, ↓reduceIte]; simp only [l3, inArr, h, ↓reduceDIte]; rfl
+      · simp only [h, ↓reduceIte]; simp only [l3, inArr, h, ↓reduceDIte]; rfl
+    rw [← this]; exact hgd'
+  · intro offs l vNo next e tp hp he hmv
+    apply step; intro next' tp' hp' _
+    rw [hp] at hp'; cases hp'; exact absurd rfl hmv
+  · intro offs l vNo next e tp hp he hmb
+    apply step; intro next' tp' hp' _
+    rw [hp] at hp'; cases hp'; exact absurd rfl he
+  · intro offs l vNo next e tp hp he hmb
+    apply step; intro next' tp' hp' _
+    rw [hp] at hp'; cases hp'; exact absurd rfl he
+
+theorem hNext_n (l : URIHdrsLst) (tp : PTokParam) : (l.next tp).n = l.n + 1 := by
+  unfold URIHdrsLst.next; split <;> simp only [hSetCur_n]
+theorem hNext_size (l : URIHdrsLst) (tp : PTokParam) : (l.next tp).hdrs.size = l.hdrs.size := by
+  unfold URIHdrsLst.next; split <;> simp only [hSetCur_size]
+theorem hNext_hdrs (l : URIHdrsLst) (tp : PTokParam) : (l.next tp).hdrs = (l.setCur tp).hdrs := by
+  unfold URIHdrsLst.next; split <;> rfl
+theorem hNext_tmp_in (l : URIHdrsLst) (tp : PTokParam) (h : l.n < l.hdrs.size) : (l.next tp).tmp = l.tmp := by
+  unfold URIHdrsLst.next; rw [if_pos h]; exact hSetCur_tmp_in l _ h
+theorem hNext_tmp_out (l : URIHdrsLst) (tp : PTokParam) (h : ¬ l.n < l.hdrs.size) : (l.next tp).tmp = {} := by
+  unfold URIHdrsLst.next; rw [if_neg h]
+
+theorem hNext_setCur (l : URIHdrsLst) (p tp : PTokParam) : (l.setCur p).next tp = l.next tp := by
+  unfold URIHdrsLst.next
+  rw [hSetCur_setCur, hSetCur_n, hSetCur_size]
+
+/-- legitimacy of a URI-header list: unused slots (and the scratch slot while the array is not full) hold zero
+    values.  (The header list never reads the buffer back, so nothing is asked of the current element.) -/
+def hlClean (l : URIHdrsLst) : Prop :=
+  (∀ k, l.n < k → k < l.hdrs.size → l.hdrs[k]! = {}) ∧ (l.n < l.hdrs.size → l.tmp = {})
+
+theorem hlClean_setCur {l : URIHdrsLst} (p : PTokParam) (h : hlClean l) : hlClean (l.setCur p) := by
+  refine ⟨fun k h1 h2 => ?_, fun h1 => ?_⟩
+  · rw [hSetCur_n] at h1; rw [hSetCur_size] at h2
+    rw [hSetCur_get_ne l p k (by omega)]; exact h.1 k h1 h2
+  · rw [hSetCur_n, hSetCur_size] at h1
+    rw [hSetCur_tmp_in l p h1]; exact h.2 h1
+
+theorem hlClean_next {l : URIHdrsLst} (tp : PTokParam) (h : hlClean l) :
+    hlClean (l.next tp) ∧ (l.next tp).cur = {} := by
+  have hget : ∀ k, l.n < k → k < l.hdrs.size → (l.next tp).hdrs[k]! = {} := by
+    intro k h1 h2
+    rw [hNext_hdrs, hSetCur_get_ne l _ k (by omega)]; exact h.1 k h1 h2
+  have htmp : l.n + 1 ≥ l.hdrs.size → (l.next tp).tmp = {} := by
+    intro hge
+    by_cases hin : l.n < l.hdrs.size
+    · rw [hNext_tmp_in l tp hin]; exact h.2 hin
+    · exact hNext_tmp_out l tp hin
+  refine ⟨⟨fun k h1 h2 => ?_, fun h1 => ?_⟩, ?_⟩
+  · rw [hNext_n] at h1; rw [hNext_size] at h2; exact hget k (by omega) h2
+  · rw [hNext_n, hNext_size] at h1
+    rw [hNext_tmp_in l tp (by omega)]; exact h.2 (by omega)
+  · unfold URIHdrsLst.cur
+    rw [hNext_n, hNext_size]
+    split
+    · rename_i hin; exact hget _ (by omega) hin
+    · rename_i hin; exact htmp (by omega)
+
+/-- with a clean list the loop's progress guard always holds -/
+theorem hl_guard {b : Buf} {offs : Nat} {l : URIHdrsLst} {flags next : Nat} {tp : PTokParam}
+    (hf : hasFlag flags POptInputEndF = false) (hcl : hlClean l) (ho : offs ≤ b.size)
+    (hp : parseTokenParam b offs l.cur flags = (next, .moreValues, tp)) :
+    next ≤ b.size ∧ (offs < next ∨ (offs = next ∧ l.cur.state = .fNxt ∧ (l.next tp).cur.state ≠ .fNxt)) := by
+  have hr := parseTokenParam_range b offs l.cur flags hf ho hp
+  refine ⟨hr.2, ?_⟩
+  rcases Nat.lt_or_ge offs next with h | h
+  · exact Or.inl h
+  · have : next = offs := by omega
+    subst this
+    refine Or.inr ⟨rfl, parseTokenParam_mv_start b next l.cur flags hf hp, ?_⟩
+    rw [(hlClean_next tp hcl).2]
+    intro hh; cases hh
+
+theorem uriHdrsLoop_mv' {b : Buf} {offs : Nat} {l : URIHdrsLst} {flags vNo next : Nat} {tp : PTokParam}
+    (hf : hasFlag flags POptInputEndF = false) (hcl : hlClean l) (ho : offs ≤ b.size)
+    (hp : parseTokenParam b offs l.cur flags = (next, .moreValues, tp)) :
+    uriHdrsLoop b offs l flags vNo = uriHdrsLoop b next (l.next tp) flags (vNo + 1) := by
+  rw [uriHdrsLoop_mv hp, if_pos (hl_guard hf hcl ho hp)]
+
+/-- **L1 for the URI-header loop** -/
+theorem uriHdrsLoop_stable (b s : Buf) (flags : Nat) (hf : hasFlag flags POptInputEndF = false)
+    (offs : Nat) (l : URIHdrsLst) (vNo : Nat) (hok : hlClean l) (ho : offs ≤ b.size)
+    {o' n' : Nat} {e : Err} {l' : URIHdrsLst}
+    (hr : uriHdrsLoop b offs l flags vNo = (o', n', e, l')) (he : e ≠ .moreBytes) :
+    uriHdrsLoop (b ++ s) offs l flags vNo = (o', n', e, l') := by
+  revert hok ho hr
+  induction offs, l, vNo using uriHdrsLoop_induct b flags with
+  | step offs l vNo ih =>
+    intro hok ho hr
+    have hoB : offs ≤ (b ++ s).size := by rw [Array.size_append]; omega
+    rcases hp : parseTokenParam b offs l.cur flags with ⟨next, e1, tp⟩
+    by_cases hm : e1 = .moreBytes
+    · subst hm
+      rw [uriHdrsLoop_eq_more hp] at hr; cases hr; exact absurd rfl he
+    · have hpB := parseTokenParam_stable b s offs l.cur flags hf hp hm
+      by_cases hc : e1 = .ok ∨ e1 = .moreValues ∨ e1 = .eoh
+      · rcases hc with rfl | rfl | rfl
+        · rw [uriHdrsLoop_eq_last hp (Or.inl rfl)] at hr
+          rw [uriHdrsLoop_eq_last hpB (Or.inl rfl)]; exact hr
+        · have hgd := hl_guard hf hok ho hp
+          rw [uriHdrsLoop_mv' hf hok ho hp] at hr
+          rw [uriHdrsLoop_mv' hf hok hoB hpB]
+          exact ih next tp hp hgd (hlClean_next tp hok).1 hgd.1 hr
+        · rw [uriHdrsLoop_eq_last hp (Or.inr rfl)] at hr
+          rw [uriHdrsLoop_eq_last hpB (Or.inr rfl)]; exact hr
+      · have h1 : e1 ≠ .ok := fun h => hc (Or.inl h)
+        have h2 : e1 ≠ .moreValues := fun h => hc (Or.inr (Or.inl h))
+        have h3 : e1 ≠ .eoh := fun h => hc (Or.inr (Or.inr h))
+        rw [uriHdrsLoop_err hp h1 h2 h3 hm] at hr
+        rw [uriHdrsLoop_err hpB h1 h2 h3 hm]; exact hr
+
+/-- **L1 for ParseAllURIHdrs** -/
+theorem parseAllURIHdrs_stable (b s : Buf) (offs : Nat) (l : URIHdrsLst) (flags : Nat)
+    (hf : hasFlag flags POptInputEndF = false) (hok : hlClean l) (ho : offs ≤ b.size)
+    {o' n' : Nat} {e : Err} {l' : URIHdrsLst}
+    (hr : parseAllURIHdrs b offs l flags = (o', n', e, l')) (he : e ≠ .moreBytes) :
+    parseAllURIHdrs (b ++ s) offs l flags = (o', n', e, l') := by
+  unfold parseAllURIHdrs at hr ⊢
+  exact uriHdrsLoop_stable b s _ (by rw [hasFlag_uriHdr]; exact hf) offs l 0 hok ho hr he
+
+theorem hlClean_new (k : Nat) : hlClean ({ hdrs := Array.replicate k {} } : URIHdrsLst) := by
+  refine ⟨fun j _ hj => ?_, fun _ => rfl⟩
+  simp only [Array.size_replicate] at hj; simp [hj]
+
+/-- `Reset()` of a clean list is a legitimate empty list -/
+theorem hlClean_reset {l : URIHdrsLst} (h : hlClean l) : hlClean l.reset ∧ l.reset.n = 0 ∧ l.reset.cur = {} := by
+  have hsz : l.reset.hdrs.size = l.hdrs.size := clearUpToP_size _ _ _
+  have hget : ∀ k, k < l.hdrs.size → l.reset.hdrs[k]! = {} := by
+    intro k hk
+    show (clearUpToP l.hdrs {} l.n)[k]! = {}
+    rw [clearUpToP_get _ _ _ _ hk]
+    split
+    · rfl
+    · exact h.1 k (by omega) hk
+  refine ⟨⟨fun k _ hk => ?_, fun _ => rfl⟩, rfl, ?_⟩
+  · rw [hsz] at hk; exact hget k hk
+  · unfold URIHdrsLst.cur
+    split
+    · rename_i hin
+      rw [hsz] at hin
+      have hin' : 0 < l.hdrs.size := hin
+      exact hget 0 hin'
+    · rfl
+
+
+/-! ### URI-header list: L2 -/
+
+/-- re-entering the loop with the suspended element in place: the first token-parameter call decides -/
+theorem uriHdrsLoop_reenter (B : Buf) (flags : Nat) (hf : hasFlag flags POptInputEndF = false)
+    (offs o' : Nat) (l : URIHdrsLst) (tp : PTokParam) (vNo : Nat) (hcl : hlClean l)
+    (ho : offs ≤ B.size) (ho' : o' ≤ B.size)
+    (hpe : parseTokenParam B o' tp flags = parseTokenParam B offs l.cur flags) :
+    uriHdrsLoop B o' (l.setCur tp) flags vNo = uriHdrsLoop B offs l flags vNo := by
+  rcases h2 : parseTokenParam B offs l.cur flags with ⟨n2, e2, tp2⟩
+  have h1 : parseTokenParam B o' (l.setCur tp).cur flags = (n2, e2, tp2) := by
+    rw [hSetCur_cur, hpe, h2]
+  have hcl' := hlClean_setCur tp hcl
+  by_cases hm : e2 = .moreBytes
+  · subst hm
+    rw [uriHdrsLoop_eq_more h1, uriHdrsLoop_eq_more h2, hSetCur_setCur]
+  · by_cases hc : e2 = .ok ∨ e2 = .moreValues ∨ e2 = .eoh
+    · rcases hc with rfl | rfl | rfl
+      · rw [uriHdrsLoop_eq_last h1 (Or.inl rfl), uriHdrsLoop_eq_last h2 (Or.inl rfl), hNext_setCur]
+      · rw [uriHdrsLoop_mv' hf hcl' ho' h1, uriHdrsLoop_mv' hf hcl ho h2, hNext_setCur]
+      · rw [uriHdrsLoop_eq_last h1 (Or.inr rfl), uriHdrsLoop_eq_last h2 (Or.inr rfl), hNext_setCur]
+    · have e1 : e2 ≠ .ok := fun h => hc (Or.inl h)
+      have e3 : e2 ≠ .moreValues := fun h => hc (Or.inr (Or.inl h))
+      have e4 : e2 ≠ .eoh := fun h => hc (Or.inr (Or.inr h))
+      rw [uriHdrsLoop_err h1 e1 e3 e4 hm, uriHdrsLoop_err h2 e1 e3 e4 hm, hSetCur_setCur]
+
+/-- **L2 for the URI-header loop**: exact equality of the results; the suspended object is legitimate again -/
+theorem uriHdrsLoop_resume (b s : Buf) (flags : Nat) (hf : hasFlag flags POptInputEndF = false)
+    (offs : Nat) (l : URIHdrsLst) (vNo : Nat) (hok : hlClean l) (ho : offs ≤ b.size)
+    {o' n' : Nat} {l' : URIHdrsLst}
+    (hr : uriHdrsLoop b offs l flags vNo = (o', n', Err.moreBytes, l')) :
+    uriHdrsLoop (b ++ s) o' l' flags n' = uriHdrsLoop (b ++ s) offs l flags vNo ∧
+      hlClean l' ∧ offs ≤ o' ∧ o' ≤ b.size ∧ l'.cur.state ≠ .fin := by
+  revert hok ho hr
+  induction offs, l, vNo using uriHdrsLoop_induct b flags with
+  | step offs l vNo ih =>
+    intro hok ho hr
+    have hsz : b.size ≤ (b ++ s).size := by rw [Array.size_append]; omega
+    have hoB : offs ≤ (b ++ s).size := by omega
+    rcases hp : parseTokenParam b offs l.cur flags with ⟨next, e1, tp⟩
+    have hrg := parseTokenParam_range b offs l.cur flags hf ho hp
+    by_cases hm : e1 = .moreBytes
+    · subst hm
+      rw [uriHdrsLoop_eq_more hp] at hr
+      simp only [Prod.mk.injEq, true_and] at hr
+      obtain ⟨rfl, rfl, rfl⟩ := hr
+      have hres := parseTokenParam_resume b s offs l.cur flags hf hp
+      have hmore := parseTokenParam_more b offs l.cur flags hf hp
+      refine ⟨uriHdrsLoop_reenter (b ++ s) flags hf offs next l tp vNo hok hoB (by omega) hres,
+        hlClean_setCur _ hok, hrg.1, hrg.2, ?_⟩
+      rw [hSetCur_cur]; exact hmore.2
+    · have hpB := parseTokenParam_stable b s offs l.cur flags hf hp hm
+      by_cases hc : e1 = .ok ∨ e1 = .moreValues ∨ e1 = .eoh
+      · rcases hc with rfl | rfl | rfl
+        · rw [uriHdrsLoop_eq_last hp (Or.inl rfl)] at hr; cases hr
+        · have hgd := hl_guard hf hok ho hp
+          rw [uriHdrsLoop_mv' hf hok ho hp] at hr
+          have := ih next tp hp hgd (hlClean_next tp hok).1 hgd.1 hr
+          refine ⟨?_, this.2.1, by have := this.2.2.1; omega, this.2.2.2.1, this.2.2.2.2⟩
+          rw [uriHdrsLoop_mv' hf hok hoB hpB]
+          exact this.1
+        · rw [uriHdrsLoop_eq_last hp (Or.inr rfl)] at hr; cases hr
+      · have h1 : e1 ≠ .ok := fun h => hc (Or.inl h)
+        have h2 : e1 ≠ .moreValues := fun h => hc (Or.inr (Or.inl h))
+        have h3 : e1 ≠ .eoh := fun h => hc (Or.inr (Or.inr h))
+        rw [uriHdrsLoop_err hp h1 h2 h3 hm] at hr
+        simp only [Prod.mk.injEq] at hr
+        exact absurd hr.2.2.1 hm
+
+/-- the counter of values is only passed along -/
+theorem uriHdrsLoop_vNo (b : Buf) (flags offs : Nat) (l : URIHdrsLst) (vNo : Nat) :
+    uriHdrsLoop b offs l flags vNo =
+      ((uriHdrsLoop b offs l flags 0).1, vNo + (uriHdrsLoop b offs l flags 0).2.1,
+       (uriHdrsLoop b offs l flags 0).2.2) := by
+  have key : ∀ offs l vNo, ∀ k, uriHdrsLoop b offs l flags (vNo + k) =
+      ((uriHdrsLoop b offs l flags vNo).1, (uriHdrsLoop b offs l flags vNo).2.1 + k,
+       (uriHdrsLoop b offs l flags vNo).2.2) := by
+    intro offs l vNo
+    induction offs, l, vNo using uriHdrsLoop_induct b flags with
+    | step offs l vNo ih =>
+      intro k
+      rcases hp : parseTokenParam b offs l.cur flags with ⟨next, e1, tp⟩
+      by_cases hm : e1 = .moreBytes
+      · subst hm; rw [uriHdrsLoop_eq_more hp, uriHdrsLoop_eq_more hp]
+      · by_cases hc : e1 = .ok ∨ e1 = .moreValues ∨ e1 = .eoh
+        · rcases hc with rfl | rfl | rfl
+          · rw [uriHdrsLoop_eq_last hp (Or.inl rfl), uriHdrsLoop_eq_last hp (Or.inl rfl)]
+            simp only [Prod.mk.injEq, true_and, and_true]; omega
+          · rw [uriHdrsLoop_mv hp, uriHdrsLoop_mv hp]
+            split
+            · rename_i hgd
+              have := ih next tp hp hgd k
+              rw [show vNo + k + 1 = vNo + 1 + k by omega]
+              exact this
+            · simp only [Prod.mk.injEq, true_and, and_true]; omega
+          · rw [uriHdrsLoop_eq_last hp (Or.inr rfl), uriHdrsLoop_eq_last hp (Or.inr rfl)]
+            simp only [Prod.mk.injEq, true_and, and_true]; omega
+        · have h1 : e1 ≠ .ok := fun h => hc (Or.inl h)
+          have h2 : e1 ≠ .moreValues := fun h => hc (Or.inr (Or.inl h))
+          have h3 : e1 ≠ .eoh := fun h => hc (Or.inr (Or.inr h))
+          rw [uriHdrsLoop_err hp h1 h2 h3 hm, uriHdrsLoop_err hp h1 h2 h3 hm]
+  have := key offs l 0 vNo
+  rw [Nat.zero_add] at this
+  rw [this, Nat.add_comm]
+
+/-- **L2 for ParseAllURIHdrs**: after `MoreBytes` (with `n'` values parsed so far) at `(o', l')`, the call on the
+    extended buffer with `(o', l')` returns the offset, the verdict and the very list object of the call on the
+    extended buffer from `(offs, l)`; the numbers of values parsed add up. -/
+theorem parseAllURIHdrs_resume (b s : Buf) (offs : Nat) (l : URIHdrsLst) (flags : Nat)
+    (hf : hasFlag flags POptInputEndF = false) (hok : hlClean l) (ho : offs ≤ b.size)
+    {o' n' : Nat} {l' : URIHdrsLst}
+    (hr : parseAllURIHdrs b offs l flags = (o', n', Err.moreBytes, l')) :
+    ((parseAllURIHdrs (b ++ s) o' l' flags).1 = (parseAllURIHdrs (b ++ s) offs l flags).1 ∧
+     n' + (parseAllURIHdrs (b ++ s) o' l' flags).2.1 = (parseAllURIHdrs (b ++ s) offs l flags).2.1 ∧
+     (parseAllURIHdrs (b ++ s) o' l' flags).2.2 = (parseAllURIHdrs (b ++ s) offs l flags).2.2) ∧
+    hlClean l' ∧ offs ≤ o' ∧ o' ≤ b.size ∧ l'.cur.state ≠ .fin := by
+  unfold parseAllURIHdrs at hr ⊢
+  have := uriHdrsLoop_resume b s _ (by rw [hasFlag_uriHdr]; exact hf) offs l 0 hok ho hr
+  refine ⟨?_, this.2⟩
+  rw [← this.1, uriHdrsLoop_vNo (b ++ s) _ o' l' n']
+  exact ⟨rfl, rfl, rfl⟩
+
+/-! ### URI-header list: the capacity of the array does not influence the parse -/
+
+/-- two list objects (with possibly different capacities) that went through the same parse -/
+structure HlRel (l1 l2 : URIHdrsLst) : Prop where
+  n : l1.n = l2.n
+  cur : l1.cur = l2.cur
+  agree : ∀ k, k < l1.n → k < l1.hdrs.size → k < l2.hdrs.size → l1.hdrs[k]! = l2.hdrs[k]!
+  clean1 : hlClean l1
+  clean2 : hlClean l2
+
+theorem HlRel.setCur {l1 l2 : URIHdrsLst} (h : HlRel l1 l2) (p : PTokParam) : HlRel (l1.setCur p) (l2.setCur p) := by
+  refine ⟨by rw [hSetCur_n, hSetCur_n, h.n], by rw [hSetCur_cur, hSetCur_cur], ?_, hlClean_setCur p h.clean1,
+    hlClean_setCur p h.clean2⟩
+  intro k hk h1 h2
+  rw [hSetCur_n] at hk
+  rw [hSetCur_get_ne l1 p k (by omega), hSetCur_get_ne l2 p k (by rw [← h.n]; omega)]
+  rw [hSetCur_size] at h1 h2
+  exact h.agree k hk h1 h2
+
+theorem HlRel.next {l1 l2 : URIHdrsLst} (h : HlRel l1 l2) (tp : PTokParam) : HlRel (l1.next tp) (l2.next tp) := by
+  have c1 := hlClean_next tp h.clean1
+  have c2 := hlClean_next tp h.clean2
+  refine ⟨by rw [hNext_n, hNext_n, h.n], by rw [c1.2, c2.2], ?_, c1.1, c2.1⟩
+  intro k hk h1 h2
+  rw [hNext_n] at hk
+  rw [hNext_size] at h1 h2
+  rw [hNext_hdrs, hNext_hdrs]
+  by_cases hkn : k = l1.n
+  · subst hkn
+    rw [hSetCur_get_n l1 _ h1]
+    have hn : l1.n = l2.n := h.n
+    rw [hn] at h2 ⊢
+    rw [hSetCur_get_n l2 _ h2]
+  · rw [hSetCur_get_ne l1 _ k (by omega), hSetCur_get_ne l2 _ k (by rw [← h.n]; omega)]
+    exact h.agree k (by omega) h1 h2
+
+/-- **the URI-header loop does the same whatever the capacity** -/
+theorem uriHdrsLoop_rel (b : Buf) (flags offs : Nat) (l1 l2 : URIHdrsLst) (vNo : Nat) (h : HlRel l1 l2) :
+    (uriHdrsLoop b offs l1 flags vNo).1 = (uriHdrsLoop b offs l2 flags vNo).1 ∧
+    (uriHdrsLoop b offs l1 flags vNo).2.1 = (uriHdrsLoop b offs l2 flags vNo).2.1 ∧
+    (uriHdrsLoop b offs l1 flags vNo).2.2.1 = (uriHdrsLoop b offs l2 flags vNo).2.2.1 ∧
+    HlRel (uriHdrsLoop b offs l1 flags vNo).2.2.2 (uriHdrsLoop b offs l2 flags vNo).2.2.2 := by
+  revert l2
+  induction offs, l1, vNo using uriHdrsLoop_induct b flags with
+  | step offs l1 vNo ih =>
+    intro l2 h
+    rcases hp : parseTokenParam b offs l1.cur flags with ⟨next, e1, tp⟩
+    have hp2 : parseTokenParam b offs l2.cur flags = (next, e1, tp) := by rw [← h.cur]; exact hp
+    by_cases hm : e1 = .moreBytes
+    · subst hm
+      rw [uriHdrsLoop_eq_more hp, uriHdrsLoop_eq_more hp2]
+      exact ⟨rfl, rfl, rfl, h.setCur _⟩
+    · by_cases hc : e1 = .ok ∨ e1 = .moreValues ∨ e1 = .eoh
+      · rcases hc with rfl | rfl | rfl
+        · rw [uriHdrsLoop_eq_last hp (Or.inl rfl), uriHdrsLoop_eq_last hp2 (Or.inl rfl)]
+          exact ⟨rfl, rfl, rfl, h.next _⟩
+        · rw [uriHdrsLoop_mv hp, uriHdrsLoop_mv hp2, ← h.cur,
+            (hlClean_next tp h.clean1).2, (hlClean_next tp h.clean2).2]
+          split
+          · rename_i hgd
+            rw [← (hlClean_next tp h.clean1).2] at hgd
+            exact ih next tp hp hgd _ (h.next _)
+          · exact ⟨rfl, rfl, rfl, h.next _⟩
+        · rw [uriHdrsLoop_eq_last hp (Or.inr rfl), uriHdrsLoop_eq_last hp2 (Or.inr rfl)]
+          exact ⟨rfl, rfl, rfl, h.next _⟩
+      · have h1 : e1 ≠ .ok := fun h => hc (Or.inl h)
+        have h2 : e1 ≠ .moreValues := fun h => hc (Or.inr (Or.inl h))
+        have h3 : e1 ≠ .eoh := fun h => hc (Or.inr (Or.inr h))
+        rw [uriHdrsLoop_err hp h1 h2 h3 hm, uriHdrsLoop_err hp2 h1 h2 h3 hm]
+        exact ⟨rfl, rfl, rfl, h.setCur _⟩
+
+/-- **capacity independence of ParseAllURIHdrs** -/
+theorem parseAllURIHdrs_rel (b : Buf) (offs : Nat) (l1 l2 : URIHdrsLst) (flags : Nat) (h : HlRel l1 l2) :
+    (parseAllURIHdrs b offs l1 flags).1 = (parseAllURIHdrs b offs l2 flags).1 ∧
+    (parseAllURIHdrs b offs l1 flags).2.1 = (parseAllURIHdrs b offs l2 flags).2.1 ∧
+    (parseAllURIHdrs b offs l1 flags).2.2.1 = (parseAllURIHdrs b offs l2 flags).2.2.1 ∧
+    HlRel (parseAllURIHdrs b offs l1 flags).2.2.2 (parseAllURIHdrs b offs l2 flags).2.2.2 :=
+  uriHdrsLoop_rel b _ offs l1 l2 0 h
+
+/-- new lists of any two capacities are related -/
+theorem HlRel_new (k1 k2 : Nat) :
+    HlRel ({ hdrs := Array.replicate k1 {} } : URIHdrsLst) ({ hdrs := Array.replicate k2 {} } : URIHdrsLst) := by
+  have hcur : ∀ k, (({ hdrs := Array.replicate k {} } : URIHdrsLst)).cur = {} := by
+    intro k; unfold URIHdrsLst.cur; split
+    · rename_i h; simp at h; simp [h]
+    · rfl
+  exact ⟨rfl, by rw [hcur k1, hcur k2], (fun k hk => by cases hk), hlClean_new k1, hlClean_new k2⟩
+
+/-- ... and so are reset lists -/
+theorem HlRel_reset {l1 l2 : URIHdrsLst} (h1 : hlClean l1) (h2 : hlClean l2) : HlRel l1.reset l2.reset :=
+  ⟨rfl, by rw [(hlClean_reset h1).2.2, (hlClean_reset h2).2.2], (fun k hk => by cases hk), (hlClean_reset h1).1,
+    (hlClean_reset h2).1⟩
+
+/-! ### every call returns a legitimate list object (whatever the verdict) -/
+
+theorem uriParamsLoop_post (b : Buf) (flags : Nat) (hf : hasFlag flags POptInputEndF = false)
+    (offs : Nat) (l : URIParamsLst) (vNo : Nat) (hok : plOK b l) (ho : offs ≤ b.size) :
+    plOK b (uriParamsLoop b offs l flags vNo).2.2.2 ∧ offs ≤ (uriParamsLoop b offs l flags vNo).1 ∧
+      (uriParamsLoop b offs l flags vNo).1 ≤ b.size := by
+  revert hok ho
+  induction offs, l, vNo using uriParamsLoop_induct b flags with
+  | step offs l vNo ih =>
+    intro hok ho
+    rcases hp : parseTokenParam b offs l.cur.param flags with ⟨next, e1, tp⟩
+    have hpost := parseTokenParam_post b offs l.cur.param flags hf ho hok.1 hp
+    have hset : plOK b (l.setCur { l.cur with param := tp }) :=
+      ⟨by rw [pSetCur_cur]; exact hpost.2.2, plClean_setCur _ hok.2⟩
+    by_cases hm : e1 = .moreBytes
+    · subst hm
+      rw [uriParamsLoop_eq_more hp]
+      exact ⟨hset, hpost.1, hpost.2.1⟩
+    · by_cases hc : e1 = .ok ∨ e1 = .moreValues ∨ e1 = .eoh
+      · cases hg : tp.name.get? b with
+        | none =>
+          rw [uriParamsLoop_panic hp hc hg]
+          exact ⟨⟨hset.1, hset.2⟩, hpost.1, hpost.2.1⟩
+        | some nm =>
+          have hcn := plClean_next tp (uriParamResolve nm) hok.2
+          have hnx : plOK b (l.next tp (uriParamResolve nm)) := ⟨by rw [hcn.2]; exact tpOK_new b, hcn.1⟩
+          rcases hc with rfl | rfl | rfl
+          · rw [uriParamsLoop_eq_last hp (Or.inl rfl) hg]; exact ⟨hnx, hpost.1, hpost.2.1⟩
+          · have hgd := pl_guard hf hok.2 ho hp (uriParamResolve nm)
+            rw [uriParamsLoop_mv' hf hok.2 ho hp hg]
+            have := ih next tp nm hp hg hgd hnx hgd.1
+            exact ⟨this.1, by have := this.2.1; have := hpost.1; omega, this.2.2⟩
+          · rw [uriParamsLoop_eq_last hp (Or.inr rfl) hg]; exact ⟨hnx, hpost.1, hpost.2.1⟩
+      · have h1 : e1 ≠ .ok := fun h => hc (Or.inl h)
+        have h2 : e1 ≠ .moreValues := fun h => hc (Or.inr (Or.inl h))
+        have h3 : e1 ≠ .eoh := fun h => hc (Or.inr (Or.inr h))
+        rw [uriParamsLoop_err hp h1 h2 h3 hm]
+        exact ⟨⟨by rw [pSetCur_cur]; exact tpOK_new b, plClean_setCur _ hok.2⟩, hpost.1, hpost.2.1⟩
+
+/-- ParseAllURIParams keeps the list legitimate and returns an offset in `[offs, len(buf)]` -/
+theorem parseAllURIParams_post (b : Buf) (offs : Nat) (l : URIParamsLst) (flags : Nat)
+    (hf : hasFlag flags POptInputEndF = false) (hok : plOK b l) (ho : offs ≤ b.size) :
+    plOK b (parseAllURIParams b offs l flags).2.2.2 ∧ offs ≤ (parseAllURIParams b offs l flags).1 ∧
+      (parseAllURIParams b offs l flags).1 ≤ b.size :=
+  uriParamsLoop_post b _ (by rw [hasFlag_semiSep]; exact hf) offs l 0 hok ho
+
+theorem uriHdrsLoop_post (b : Buf) (flags : Nat) (hf : hasFlag flags POptInputEndF = false)
+    (offs : Nat) (l : URIHdrsLst) (vNo : Nat) (hok : hlClean l) (ho : offs ≤ b.size) :
+    hlClean (uriHdrsLoop b offs l flags vNo).2.2.2 ∧ offs ≤ (uriHdrsLoop b offs l flags vNo).1 ∧
+      (uriHdrsLoop b offs l flags vNo).1 ≤ b.size := by
+  revert hok ho
+  induction offs, l, vNo using uriHdrsLoop_induct b flags with
+  | step offs l vNo ih =>
+    intro hok ho
+    rcases hp : parseTokenParam b offs l.cur flags with ⟨next, e1, tp⟩
+    have hrg := parseTokenParam_range b offs l.cur flags hf ho hp
+    by_cases hm : e1 = .moreBytes
+    · subst hm
+      rw [uriHdrsLoop_eq_more hp]
+      exact ⟨hlClean_setCur _ hok, hrg.1, hrg.2⟩
+    · by_cases hc : e1 = .ok ∨ e1 = .moreValues ∨ e1 = .eoh
+      · rcases hc with rfl | rfl | rfl
+        · rw [uriHdrsLoop_eq_last hp (Or.inl rfl)]; exact ⟨(hlClean_next tp hok).1, hrg.1, hrg.2⟩
+        · have hgd := hl_guard hf hok ho hp
+          rw [uriHdrsLoop_mv' hf hok ho hp]
+          have := ih next tp hp hgd (hlClean_next tp hok).1 hgd.1
+          exact ⟨this.1, by have := this.2.1; have := hrg.1; omega, this.2.2⟩
+        · rw [uriHdrsLoop_eq_last hp (Or.inr rfl)]; exact ⟨(hlClean_next tp hok).1, hrg.1, hrg.2⟩
+      · have h1 : e1 ≠ .ok := fun h => hc (Or.inl h)
+        have h2 : e1 ≠ .moreValues := fun h => hc (Or.inr (Or.inl h))
+        have h3 : e1 ≠ .eoh := fun h => hc (Or.inr (Or.inr h))
+        rw [uriHdrsLoop_err hp h1 h2 h3 hm]
+        exact ⟨hlClean_setCur _ hok, hrg.1, hrg.2⟩
+
+/-- ParseAllURIHdrs keeps the list legitimate and returns an offset in `[offs, len(buf)]` -/
+theorem parseAllURIHdrs_post (b : Buf) (offs : Nat) (l : URIHdrsLst) (flags : Nat)
+    (hf : hasFlag flags POptInputEndF = false) (hok : hlClean l) (ho : offs ≤ b.size) :
+    hlClean (parseAllURIHdrs b offs l flags).2.2.2 ∧ offs ≤ (parseAllURIHdrs b offs l flags).1 ∧
+      (parseAllURIHdrs b offs l flags).1 ≤ b.size :=
+  uriHdrsLoop_post b _ (by rw [hasFlag_uriHdr]; exact hf) offs l 0 hok ho
+
+/-! ### chunk schedules -/
+
+/-- ParseTokenParam is resumable in the sense of `Schedule.lean` -/
+theorem parseTokenParam_resumable (flags : Nat) (hf : hasFlag flags POptInputEndF = false) :
+    Resumable (fun b o p => parseTokenParam b o p flags) :=
+  fun b s o st _ _ h => parseTokenParam_resume b s o st flags hf h
+
+/-- **ParseTokenParam under every chunk schedule**: the chain of resumed calls returns what fresh one-shot calls on
+    the same prefixes return (offset, verdict, object) -/
+theorem parseTokenParam_schedule (flags : Nat) (hf : hasFlag flags POptInputEndF = false) (o : Nat) (p : PTokParam)
+    (bs : List Buf) (hg : Growing bs) :
+    resumeRun (fun b o p => parseTokenParam b o p flags) o p bs =
+      oneShotRun (fun b o p => parseTokenParam b o p flags) o p bs :=
+  resumeRun_eq_oneShot _ (parseTokenParam_resumable flags hf) o p bs hg
+
+/-- ParseAllURIParams as a streaming parser: the object is the list together with the number of values parsed by
+    the calls made so far -/
+def uriParamsParser (flags : Nat) : Parser (Nat × URIParamsLst) := fun b o st =>
+  ((parseAllURIParams b o st.2 flags).1, (parseAllURIParams b o st.2 flags).2.2.1,
+   (st.1 + (parseAllURIParams b o st.2 flags).2.1, (parseAllURIParams b o st.2 flags).2.2.2))
+
+theorem uriParamsParser_resumable (flags : Nat) (hf : hasFlag flags POptInputEndF = false) :
+    ResumableI (uriParamsParser flags) (fun b o st => plOK b st.2 ∧ o ≤ b.size) := by
+  intro b s o st o' st' hI hP
+  rcases hr : parseAllURIParams b o st.2 flags with ⟨a, n, e, l'⟩
+  unfold uriParamsParser at hP
+  rw [hr] at hP
+  simp only [Prod.mk.injEq] at hP
+  obtain ⟨rfl, rfl, rfl⟩ := hP
+  have := parseAllURIParams_resume b s o st.2 flags hf hI.1 hI.2 hr
+  obtain ⟨⟨h1, h2, h3⟩, h4, _, h6, _⟩ := this
+  refine ⟨?_, h4, by rw [Array.size_append]; omega⟩
+  unfold uriParamsParser
+  simp only
+  rw [h1, ← h2, h3, Nat.add_assoc]
+
+/-- **ParseAllURIParams under every chunk schedule**: offset, verdict, total number of values and list object of
+    the chain of resumed calls are those of fresh one-shot calls on the same prefixes -/
+theorem parseAllURIParams_schedule (flags : Nat) (hf : hasFlag flags POptInputEndF = false) (o : Nat)
+    (l : URIParamsLst) (bs : List Buf) (hg : Growing bs) (h0 : ∀ b ∈ bs.head?, plOK b l ∧ o ≤ b.size) :
+    resumeRun (uriParamsParser flags) o (0, l) bs = oneShotRun (uriParamsParser flags) o (0, l) bs :=
+  resumeRun_eq_oneShotI _ _ (uriParamsParser_resumable flags hf)
+    (fun b s o st h => ⟨plOK_grows s h.1, by rw [Array.size_append]; have := h.2; omega⟩) o (0, l) bs hg h0
+
+/-- ParseAllURIHdrs as a streaming parser -/
+def uriHdrsParser (flags : Nat) : Parser (Nat × URIHdrsLst) := fun b o st =>
+  ((parseAllURIHdrs b o st.2 flags).1, (parseAllURIHdrs b o st.2 flags).2.2.1,
+   (st.1 + (parseAllURIHdrs b o st.2 flags).2.1, (parseAllURIHdrs b o st.2 flags).2.2.2))
+
+theorem uriHdrsParser_resumable (flags : Nat) (hf : hasFlag flags POptInputEndF = false) :
+    ResumableI (uriHdrsParser flags) (fun b o st => hlClean st.2 ∧ o ≤ b.size) := by
+  intro b s o st o' st' hI hP
+  rcases hr : parseAllURIHdrs b o st.2 flags with ⟨a, n, e, l'⟩
+  unfold uriHdrsParser at hP
+  rw [hr] at hP
+  simp only [Prod.mk.injEq] at hP
+  obtain ⟨rfl, rfl, rfl⟩ := hP
+  have := parseAllURIHdrs_resume b s o st.2 flags hf hI.1 hI.2 hr
+  obtain ⟨⟨h1, h2, h3⟩, h4, _, h6, _⟩ := this
+  refine ⟨?_, h4, by rw [Array.size_append]; omega⟩
+  unfold uriHdrsParser
+  simp only
+  rw [h1, ← h2, h3, Nat.add_assoc]
+
+/-- **ParseAllURIHdrs under every chunk schedule** -/
+theorem parseAllURIHdrs_schedule (flags : Nat) (hf : hasFlag flags POptInputEndF = false) (o : Nat)
+    (l : URIHdrsLst) (bs : List Buf) (hg : Growing bs) (h0 : ∀ b ∈ bs.head?, hlClean l ∧ o ≤ b.size) :
+    resumeRun (uriHdrsParser flags) o (0, l) bs = oneShotRun (uriHdrsParser flags) o (0, l) bs :=
+  resumeRun_eq_oneShotI _ _ (uriHdrsParser_resumable flags hf)
+    (fun b s o st h => ⟨h.1, by rw [Array.size_append]; have := h.2; omega⟩) o (0, l) bs hg h0
+
+/-! ### tests / non-vacuity (closed computations, `decide +kernel`) -/
+
+/-- test: a call with `POptTokSpTermF` is suspended inside the white space after a value ... -/
+example : parseTokenParam "a=b ".toUTF8.data 0 {} POptTokSpTermF =
+    (3, .moreBytes, { all := ⟨0, 2⟩, name := ⟨0, 1⟩, val := ⟨2, 0⟩, state := .val }) := by decide +kernel
+/-- ... and the resumed call (start offset 3) and the one-shot call (start offset 0) both end the parameter at the
+    white space, through the previous-byte test of `POptTokSpTermF` (instance of `parseTokenParam_resume`) -/
+example : parseTokenParam "a=b c".toUTF8.data 3 { all := ⟨0, 2⟩, name := ⟨0, 1⟩, val := ⟨2, 0⟩, state := .val }
+      POptTokSpTermF = parseTokenParam "a=b c".toUTF8.data 0 {} POptTokSpTermF ∧
+    (parseTokenParam "a=b c".toUTF8.data 0 {} POptTokSpTermF).1 = 3 ∧
+    (parseTokenParam "a=b c".toUTF8.data 0 {} POptTokSpTermF).2.1 = .ok := by decide +kernel
+/-- test: suspension right after a closing quote (state "find separator" at the end of the buffer): the resumed
+    call starts exactly on the new token and skips the previous-byte test, the one-shot call makes it and sees the
+    quote; both return offset 5 -/
+example : (parseTokenParam "a=\"x\"".toUTF8.data 0 {} POptTokSpTermF).1 = 5 ∧
+    (parseTokenParam "a=\"x\"".toUTF8.data 0 {} POptTokSpTermF).2.1 = .moreBytes ∧
+    parseTokenParam "a=\"x\"c".toUTF8.data 5 (parseTokenParam "a=\"x\"".toUTF8.data 0 {} POptTokSpTermF).2.2
+      POptTokSpTermF = parseTokenParam "a=\"x\"c".toUTF8.data 0 {} POptTokSpTermF ∧
+    (parseTokenParam "a=\"x\"c".toUTF8.data 0 {} POptTokSpTermF).1 = 5 := by decide +kernel
+/-- test: the hypotheses of the list theorems hold for new lists (`plOK_new`, `hlClean_new`, `PlRel_new`,
+    `HlRel_new`); a run that is suspended in the third element with capacity 1 and capacity 3 -/
+example : (parseAllURIParams "lr;transport=udp;x=1?".toUTF8.data 0 { params := Array.replicate 1 {} } 0).1 = 21 ∧
+    (parseAllURIParams "lr;transport=udp;x=1?".toUTF8.data 0 { params := Array.replicate 1 {} } 0).2.1 = 2 ∧
+    (parseAllURIParams "lr;transport=udp;x=1?".toUTF8.data 0 { params := Array.replicate 1 {} } 0).2.2.1 = .moreBytes ∧
+    (parseAllURIParams "lr;transport=udp;x=1?".toUTF8.data 0 { params := Array.replicate 3 {} } 0).1 = 21 ∧
+    (parseAllURIParams "lr;transport=udp;x=1?".toUTF8.data 0 { params := Array.replicate 3 {} } 0).2.2.2.types = 33 ∧
+    (parseAllURIParams "lr;transport=udp;x=1?".toUTF8.data 0 { params := Array.replicate 1 {} } 0).2.2.2.types = 33 := by
+  decide +kernel
+/-- test: URI headers, capacity 2, suspended in the third element -/
+example : (parseAllURIHdrs "a=1&b=2&c".toUTF8.data 0 { hdrs := Array.replicate 2 {} } 0).1 = 9 ∧
+    (parseAllURIHdrs "a=1&b=2&c".toUTF8.data 0 { hdrs := Array.replicate 2 {} } 0).2.1 = 2 ∧
+    (parseAllURIHdrs "a=1&b=2&c".toUTF8.data 0 { hdrs := Array.replicate 2 {} } 0).2.2.1 = .moreBytes := by
+  decide +kernel
 
 end Sipsp
